@@ -8,6 +8,7 @@ pub mod c17;
 pub mod c18;
 pub mod c18i;
 pub mod c19;
+pub mod c19s;
 pub mod c19x;
 pub mod c20;
 pub mod c28;
